@@ -34,5 +34,6 @@ structure DState where
   axis : AxisDesc := .none
   arr : Option ArrSt := none
   store : StoreSt := {}
+  validDesc : List String := []                    -- valid family (C19): the last `vl_desc` answer, raw tokens
 
 end Nix.Drive
